@@ -546,7 +546,12 @@ func genC14(c *Ctx, r *rng.R, i int) {
 	if name == "Format" && r.Chance(70) {
 		args, fmtWant = fmtDirected(r)
 	}
-	if name == "FormatDate" && r.Chance(40) {
+	if name == "FormatDate" && r.Chance(12) {
+		// a format longer than the scanner's first 4096-byte buffer, a run of one verb letter straddling the boundary
+		pad := strings.Repeat("-", 4086+r.Intn(12))
+		f := pad + []string{"YYYY-MM-DD", "hh:mm:ss", "DD MMM YYYY", "YYYYMMDDhhmmss", "EEEE"}[r.Intn(5)]
+		args = []cty.Value{cty.StringVal(f), cty.StringVal("2020-02-29T15:04:05Z")}
+	} else if name == "FormatDate" && r.Chance(40) {
 		// clock verbs at the hours where 12-hour and 24-hour notation part ways
 		f := []string{"H", "HH", "h", "hh", "H AA", "HH:mm aa", "hh:mm:ss", "h aa"}[r.Intn(8)]
 		ts := []string{"2020-01-01T00:00:00Z", "2020-01-01T00:59:59+01:00", "2020-01-01T12:00:00Z", "2020-01-01T12:30:00-05:00", "2020-01-01T13:00:00Z", "2020-01-01T23:59:59Z", "2020-01-01T01:00:00Z", "2020-01-01T11:59:59Z"}[r.Intn(8)]
